@@ -27,7 +27,14 @@ Record case := mkCase {
   c_tad_idint : bool;
   c_cmt : res (list (Z * Z));
   c_admid : res (list (Z * Z));
-  c_immutable : bool
+  c_immutable : bool;
+  c_ids : list Z;
+  c_nind : Z;
+  c_covbase : res (list (Z * list Z));
+  c_add_cmt : res (list row);          (* dataset of add_cmt(model) *)
+  c_add_cmt_meta : bool;               (* existing columns, their order and dtypes kept; new column last, typed compartment *)
+  c_add_admid : res (list row);
+  c_add_admid_meta : bool
 }.
 
 Fixpoint list_eqb {A : Type} (eqb : A -> A -> bool) (a b : list A) : bool :=
@@ -68,10 +75,25 @@ Definition series_eqb (a b : series3) : bool :=
   | _, _ => false
   end.
 
+Definition zl_eqb (a b : Z * list Z) : bool := (fst a =? fst b) && list_eqb Z.eqb (snd a) (snd b).
+
 Definition rb_eqb (a b : row * bool) : bool := row_eqb (fst a) (fst b) && Bool.eqb (snd a) (snd b).
 Definition rz_eqb (a b : row * Z) : bool := row_eqb (fst a) (fst b) && (snd a =? snd b).
 
 Definition tag (b : bool) (t : nat) : list nat := if b then [] else [t].
+
+(* equality of two lists as multisets *)
+Fixpoint remove_first {A : Type} (eqb : A -> A -> bool) (x : A) (l : list A) : option (list A) :=
+  match l with
+  | [] => None
+  | y :: tl => if eqb x y then Some tl
+               else match remove_first eqb x tl with Some r => Some (y :: r) | None => None end
+  end.
+Fixpoint multiset_eqb {A : Type} (eqb : A -> A -> bool) (a b : list A) : bool :=
+  match a with
+  | [] => match b with [] => true | _ => false end
+  | x :: tl => match remove_first eqb x b with Some b' => multiset_eqb eqb tl b' | None => false end
+  end.
 
 Definition unlab (r : row) : row := set_lab r 0.
 
@@ -90,10 +112,14 @@ Definition corr (c : case) : list nat :=
        && res_eqb Z.eqb (nobs_impl d) (c_nobs c)
        && res_eqb (list_eqb zz_eqb) (nobs_per_impl d) (c_nobs_per c)) 6 ++
   tag (list_eqb row_eqb (map unlab (baselines_impl d)) (c_baselines c)
-       && res_eqb (list_eqb Bool.eqb) (tvc_impl (c_ncov c) d) (c_tvc c)) 7 ++
-  tag (res_eqb (list_eqb zz_eqb) (cmt_impl (c_mi c) d) (c_cmt c)) 8 ++
+       && res_eqb (list_eqb Bool.eqb) (tvc_impl (c_ncov c) d) (c_tvc c)
+       && list_eqb Z.eqb (ids_impl d) (c_ids c) && (nind_impl d =? c_nind c)
+       && res_eqb (list_eqb zl_eqb) (covbase_impl (c_ncov c) d) (c_covbase c)) 7 ++
+  tag (res_eqb (list_eqb zz_eqb) (cmt_impl (c_mi c) d) (c_cmt c)
+       && res_eqb (list_eqb row_eqb) (add_cmt_impl (c_mi c) d) (c_add_cmt c)) 8 ++
   tag (negb (g_labels_range (ds_rows d)) && negb (has_admid (ds_sch d))
-       || res_eqb (list_eqb zz_eqb) (admid_impl (c_mi c) d) (c_admid c)) 9.
+       || res_eqb (list_eqb zz_eqb) (admid_impl (c_mi c) d) (c_admid c)
+          && res_eqb (list_eqb row_eqb) (add_admid_impl (c_mi c) d) (c_add_admid c)) 9.
 
 (* ------------------------------------------------------------------ oracle *)
 Definition originals (l : list (row * bool)) : list row :=
@@ -116,7 +142,10 @@ Definition oracle (c : case) : list nat :=
       tag (list_eqb row_eqb (map unlab (originals l)) (map unlab rows)) 14 ++
       tag ((zsum (map (fun p => r_amt (fst p)) l) =? zsum (map (fun r => (Z.max (r_addl r) 0 + 1) * r_amt r) rows))
            || negb (expansion_applies d)) 15 ++
-      tag ((Z.of_nat (length l) =? zsum (map (fun r => Z.max (r_addl r) 0 + 1) rows)) || negb (expansion_applies d)) 29
+      tag ((Z.of_nat (length l) =? zsum (map (fun r => Z.max (r_addl r) 0 + 1) rows)) || negb (expansion_applies d)) 29 ++
+      (* the expanded frame is the multiset of the implied doses: dose k at TIME + k*II, other fields kept *)
+      tag (negb (expansion_applies d) || negb (g_addl_nonneg rows)
+           || multiset_eqb rb_eqb (map unlab_e l) (map unlab_e (flat_map implied rows))) 36
   | Err _ => [14%nat]
   end ++
   (* add_time_after_dose *)
@@ -143,7 +172,26 @@ Definition oracle (c : case) : list nat :=
         | Err _, _ => [26%nat]
         | _, _ => []
         end) ++
-  tag (c_immutable c) 27.
+  tag (c_immutable c) 27 ++
+  (* add_cmt / add_admid: a column is added, every other column, the rows, their order and dtypes are kept;
+     the new column holds what get_cmt / get_admid return; they fail only where those fail *)
+  match c_add_cmt c with
+  | Ok rows' =>
+      tag (list_eqb row_eqb (map (fun r => set_cmt r 0) rows') (map (fun r => set_cmt r 0) rows)
+           && c_add_cmt_meta c
+           && (has_cmt s || match c_cmt c with Ok l => list_eqb Z.eqb (map r_cmt rows') (map snd l) | Err _ => false end)) 32
+  | Err _ => tag (match c_cmt c with Err _ => true | Ok _ => false end) 32
+  end ++
+  (if negb (g_labels_range rows) && negb (has_admid s) then [] else
+   match c_add_admid c with
+   | Ok rows' =>
+       tag (list_eqb row_eqb (map (fun r => set_admid r 0) rows') (map (fun r => set_admid r 0) rows)
+            && c_add_admid_meta c
+            && (has_admid s || match c_admid c with Ok l => list_eqb Z.eqb (map r_admid rows') (map snd l) | Err _ => false end)) 33
+   | Err _ => tag (match c_admid c with Err _ => true | Ok _ => false end) 33
+   end) ++
+  tag (list_eqb Z.eqb (c_ids c) (ids_walk d) && (c_nind c =? Z.of_nat (length (ids_walk d)))) 34 ++
+  (if Nat.eqb (c_ncov c) 0 then [] else tag (res_eqb (list_eqb zl_eqb) (c_covbase c) (Ok (covbase_walk d))) 35).
 
 (* ------------------------------------------------------------------ guard facts *)
 Definition guard_tags (c : case) : list nat :=
